@@ -214,7 +214,8 @@ V2 ==
 (* S1: spellings.  One line (plus a common tail) per side over services that the device prints by name  *)
 (* and Netspoc by number (protocols, ICMP types, port ranges, ntp); neighbouring services differ in one *)
 (* number only                                                                                          *)
-SvcS == {"esp", "ah", "gre", "icmp8", "icmp0", "icmp3-1", "tcp2021", "tcp2022", "tcpgt", "tcplt", "udp123", "udp124", "tcp80", "udp53"}
+SvcS == {"esp", "ah", "gre", "icmp8", "icmp0", "icmp3-1", "tcp2021", "tcp2022", "tcpgt", "tcplt", "udp123", "udp124", "tcp80", "udp53",
+         "tcpest", "tcp80est", "tcp"}
 PoolS1 == {Ace("permit", v, T("host", "h1"), T("any", "")) : v \in SvcS}
 S1 ==
   \E a, b \in {<<>>} \cup {<<x>> : x \in PoolS1}, tail \in {<<>>, <<Ace("deny", "ip", T("any", ""), T("any", ""))>>} :
